@@ -3,6 +3,7 @@ package mon
 import (
 	"fmt"
 	"math/big"
+	"strings"
 
 	"filippo.io/edwards25519"
 	"verifharness/gen"
@@ -128,9 +129,9 @@ func C01(c *Ctx) {
 				for pos, dv := range nf {
 					if dv != 0 {
 						if w == 5 {
-							c.Bit("naf5(pos,digit)", 256*32, pos*32+int(dv)+16)
+							c.Bit("naf5(pos,odd digit)", 256*16, pos*16+(int(dv)+15)/2)
 						} else {
-							c.Bit("naf8(pos,digit)", 256*256, pos*256+int(dv)+128)
+							c.Bit("naf8(pos,odd digit)", 256*128, pos*128+(int(dv)+127)/2)
 						}
 					}
 				}
@@ -141,8 +142,7 @@ func C01(c *Ctx) {
 			libP[j] = p.P
 			e := ref.Encode(p.M)
 			hparts = append(hparts, e[:], []byte(p.Build))
-			c.Tally("point:" + p.Class)
-			c.Tally("build:" + buildKey(p.Build))
+			c.tallyPoint(p)
 			if !p.M.Eq(ref.Identity()) {
 				nontriv = true
 			}
@@ -263,25 +263,26 @@ func C01(c *Ctx) {
 
 var entryNames = []string{"ScalarMult", "ScalarBaseMult", "VarTimeDoubleScalarBaseMult", "MultiScalarMult", "VarTimeMultiScalarMult"}
 
-// buildKey collapses a construction description to its route.
+// buildKey collapses a construction description to its route (and scale).
 func buildKey(b string) string {
-	for i := 0; i < len(b); i++ {
-		if b[i] == '(' || b[i] == ',' {
-			if i > 0 && b[:i] == "ext" {
-				// keep the scale
-				for j := i; j < len(b); j++ {
-					if b[j] == ',' || b[j] == ')' {
-						return b[:j] + ")"
-					}
-				}
-			}
-			if b[i] == '(' && i == 0 {
-				continue
-			}
-			if i > 0 {
-				return b[:i]
-			}
+	if strings.HasPrefix(b, "ext(") {
+		if j := strings.IndexAny(b[4:], ",)"); j >= 0 {
+			return b[:4+j] + ")"
 		}
 	}
+	if strings.HasPrefix(b, "neg(") {
+		return "neg"
+	}
 	return b
+}
+
+// tallyPoint records the class, torsion component and construction route of a generated point.
+func (c *Ctx) tallyPoint(p gen.PC) {
+	cl := p.Class
+	if i := strings.Index(cl, "]B+T"); i >= 0 {
+		c.Tally("torsion:" + cl[i+3:])
+		cl = cl[:i+1] + "B+T"
+	}
+	c.Tally("point:" + cl)
+	c.Tally("build:" + buildKey(p.Build))
 }
